@@ -442,7 +442,7 @@ theorem mem_safelyUnquote_cases (U : List UInt8) {c : Char} {s : Str}
       0xa0 ≤ c.toNat := by
   simp only [safelyUnquote, render, List.mem_flatMap] at h
   obtain ⟨t, ht, hch⟩ := h
-  have := outTok_unquoteToks U (tokens s) (wf_tokens s) t ht
+  have := outTok_unquoteToks U (escapeRaw (tokens s)) (wf_escapeRaw (wf_tokens s)) t ht
   cases this with
   | input c' hc' _ =>
     simp only [renderTok, List.mem_singleton] at hch
@@ -450,7 +450,7 @@ theorem mem_safelyUnquote_cases (U : List UInt8) {c : Char} {s : Str}
     left
     rw [← render_tokens s]
     simp only [render, List.mem_flatMap]
-    exact ⟨_, hc', by simp [renderTok]⟩
+    exact ⟨_, (raw_mem_escapeRaw hc').1, by simp [renderTok]⟩
   | esc h1 h2 a b =>
     simp only [renderTok, List.mem_cons, List.not_mem_nil, or_false] at hch
     rcases hch with h | h | h
@@ -898,11 +898,11 @@ theorem mem_normpath {c : Char} {p : Str} (h : c ∈ normpath p) : c ∈ p ∨ c
 def AbsPath (p : Str) : Prop := p = [] ∨ ∃ q, p = '/' :: q
 
 theorem safelyUnquote_nil (U : List UInt8) : safelyUnquote U [] = [] := by
-  simp [safelyUnquote, tokens, unquoteToks, assemble, flush, segment, segment.go, render]
+  simp [safelyUnquote, tokens, escapeRaw, unquoteToks, assemble, flush, segment, segment.go, render]
 
 theorem safelyUnquote_cons_slash (U : List UInt8) (q : Str) :
     safelyUnquote U ('/' :: q) = '/' :: safelyUnquote U q := by
-  have := safelyUnquote_append_sep U (c := '/') ⟨by decide, by decide⟩ (by decide) [] q
+  have := safelyUnquote_append_sep U (c := '/') ⟨by decide, by decide⟩ (by decide) (by decide) [] q
   simpa [safelyUnquote_nil] using this
 
 theorem mem_canonPath {c : Char} {path : Str} {m : Bool} (h : c ∈ canonPath path m) :
